@@ -873,7 +873,20 @@ pub fn scenarios(prop: &str, tier: &str) -> Vec<Arc<dyn Scenario>> {
                 am.major = vec![u64::MAX];
                 am.wms = vec![Wm::Tight];
                 am.reopen = true;
-                push(format!("{prop}-bulk-ingest-rotation"), c, &am, bs(0, 1, 0, 1, 2), vec![vec![Op::IngestRange { lo: 0, hi: n }]]);
+                push(format!("{prop}-bulk-ingest-rotation"), c.clone(), &am, bs(0, 1, 0, 1, 2), vec![vec![Op::IngestRange { lo: 0, hi: n }]]);
+                // the same through the flush path: one memtable with > 64 MiB of keys, every value
+                // separated (threshold 1), one blob file per value (file target 1), so that the flush's
+                // table writer rotates between two blob links (round-3 seeded change C08-5)
+                let mut cf = c;
+                cf.blob = Some(BlobCfg { threshold: 1, file_target: 1, staleness: 0.25, age_cutoff: 1.0 });
+                let puts: Vec<Op> = (0..n).map(|k| Op::PutIdx { k }).collect();
+                push(
+                    format!("{prop}-bulk-flush-rotation"),
+                    cf,
+                    &am,
+                    bs(0, 1, 0, 1, 2),
+                    vec![vec![Op::Seq { ops: puts }, Op::Flush { w: Wm::Tight }]],
+                );
             }
             if prop == "C09" {
                 // compaction filter on the blob tree: Remove on a, ReplaceBig on b
